@@ -7,4 +7,26 @@ REGISTRY = {
         "every tableau-API action is applied by the real code from enumerated tableaux and along random histories, and "
         "TLC judges each observed tableau (binary, symplectic/paired, hermitian stabilizers, group = textbook successor).",
         "", "DESIGN.md 6/C07"),
+    "C01": (
+        "TLA+ spec of circuit execution (CircuitRun over stabilizer-group ensembles) model-checked by TLC on all short "
+        "programs; the same programs and random circuits compiled by both real compilers and trace-validated by TLC",
+        "TLC explores every program of <= 2 (quick) / 3 (thorough) operations over the full alphabet on 1e+1p+1c, every "
+        "execution order and outcome (confluence, reset, record); each program and random circuits up to 4 qubits are "
+        "compiled by both backends under forced-0 / forced-1 / probabilistic settings; per-operation traces (op, creg "
+        "copy, projected state) are judged by TLC against textbook semantics, TLC infers the operation and outcome.",
+        "", "DESIGN.md 6/C01"),
+    "C05": (
+        "TLC-enumerated stabilizer states fed to the real fidelity / equality / canonical-form code; results judged by TLC "
+        "against the group-level definition; fidelity lemmas model-checked on all ordered pairs",
+        "All 6/60 states (all ordered pairs) and 1080 states (sampled pairs quick, all 1080^2 thorough) in random "
+        "generating sets with random destabilizers; TLC checks value = |<a|b>|^2, symmetry, 1 iff equal, equality, "
+        "canonical form (same state, unique), Infidelity metric, sign-flip near misses.",
+        "", "DESIGN.md 6/C05"),
+    "C11": (
+        "TLC-enumerated stabilizer states / graphs fed to the real inverse-circuit synthesis; the returned gate list is "
+        "executed by the spec's gate semantics in TLC",
+        "Every stabilizer state on <= 3 qubits (sampled 4-qubit states in thorough) in several generating sets, every "
+        "labelled graph on <= 4 (5) vertices: inverse circuit maps the group to +Z^n, reverse run / "
+        "clifford_from_stabilizer / CliffordTableau(StabilizerTableau) / graph tableau are valid tableaux of that state.",
+        "", "DESIGN.md 6/C11"),
 }
